@@ -234,7 +234,7 @@ func c05API(c *Ctx, msgs []string) {
 
 	var scripts []c05Script
 	codesList := []codes.Code{1, 2, 3, 4, 5, 6, 7, 8, 9, 10, 11, 12, 13, 14, 15, 16, 17, 18, 20, 99, 1 << 20}
-	apiMsgs := []string{"", "plain", "50% done, après", "%", "tab\tnl\n", "日本語 🎉", strings.Repeat("long message ", 20) + ".", "é", "ends é", "%41%zz", "a"}
+	apiMsgs := []string{"", "plain", "50% done, après", "%", "tab\tnl\n", "日本語 🎉", strings.Repeat("long message ", 20) + ".", "é", "ends é", "%41%zz", "a", strings.Repeat("é", 100), "x" + strings.Repeat("日", 60)}
 	for _, code := range codesList {
 		scripts = append(scripts, c05Script{code: code, msg: apiMsgs[int(code)%len(apiMsgs)], details: code%2 == 0})
 	}
@@ -484,7 +484,7 @@ func c05API(c *Ctx, msgs []string) {
 			got, err := wsFail(hts.URL)
 			wantCode := c.Drv.Ask(join("wsstatus", strconv.Itoa(int(sc.code))))
 			if err != nil {
-				c.SpecFail("api-ws", in, err.Error(), "a close frame", "C05/ws/no-close-frame", "no close frame received")
+				c.SpecFail("api-ws", in, err.Error(), "a valid close frame", "C05/ws/no-close-frame", "no (valid) close frame received")
 			} else {
 				if "ok "+strconv.Itoa(int(got.code)) != wantCode {
 					c.res.NDisagree++
@@ -492,6 +492,9 @@ func c05API(c *Ctx, msgs []string) {
 				}
 				if "ok "+strconv.Itoa(int(got.code)) != wantCode || got.code == 1005 || got.code == 1006 {
 					c.SpecFail("api-ws", in, fmt.Sprintf("%d %q", got.code, got.reason), "close code "+wantCode, "C05/ws/close-code-not-mapped", "the close frame does not carry the close code the status code maps to")
+				}
+				if !utf8.ValidString(got.reason) {
+					c.SpecFail("api-ws", in, fmt.Sprintf("%d %q", got.code, got.reason), "a UTF-8 reason", "C05/ws/close-reason-not-utf8", "the close frame's reason is not valid UTF-8 (RFC 6455 5.5.1): a conforming client fails the connection instead of reading the status")
 				}
 				if got.code == 1000 || !strings.HasPrefix(sc.msg, got.reason) || (len(sc.msg) <= 123 && got.reason != sc.msg) {
 					c.SpecFail("api-ws", in, fmt.Sprintf("%d %q", got.code, got.reason), fmt.Sprintf("error close code, reason %q", sc.msg), "C05/ws/close-frame", "close frame does not carry the status")
@@ -529,6 +532,10 @@ func wsFail(base string) (wsClose, error) {
 			return wsClose{}, err
 		}
 		if hdr.OpCode == ws.OpClose {
+			// what a conforming client does first (RFC 6455 5.5: a control frame carries at most 125 bytes)
+			if err := ws.CheckHeader(hdr, ws.StateClientSide); err != nil {
+				return wsClose{}, fmt.Errorf("the close frame is not a valid WebSocket frame (%d byte payload): %w", hdr.Length, err)
+			}
 			code, reason := ws.ParseCloseFrameData(payload)
 			return wsClose{code, reason}, nil
 		}
